@@ -673,24 +673,36 @@ for nt in grid_nt:
     # N client threads sharing one object (first access builds the caches)
     for name, (make, ops) in H.items():
         serial = tuple(op(make()) for op in ops)
+        def once(N):
+            shared = make()
+            results = [None] * N
+            barrier = threading.Barrier(N)
+            def body(i):
+                barrier.wait()
+                try:
+                    results[i] = ops[i % len(ops)](shared)
+                except Exception as ex:
+                    results[i] = "EXC:" + type(ex).__name__ + ":" + str(ex)[:80]
+            ths = [threading.Thread(target=body, args=(i,)) for i in range(N)]
+            [t.start() for t in ths]; [t.join() for t in ths]
+            out["runs"] += 1
+            for i in range(N):
+                if results[i] != serial[i % len(ops)]:
+                    return repr(results[i])[:200]
+            return None
         for N in ([2, 4, 16] if tier == "thorough" else [4, 16]):
             for rep in range(3 if tier == "thorough" else 1):
-                shared = make()
-                results = [None] * N
-                barrier = threading.Barrier(N)
-                def body(i):
-                    barrier.wait()
-                    try:
-                        results[i] = ops[i % len(ops)](shared)
-                    except Exception as ex:
-                        results[i] = "EXC:" + type(ex).__name__ + ":" + str(ex)[:80]
-                ths = [threading.Thread(target=body, args=(i,)) for i in range(N)]
-                [t.start() for t in ths]; [t.join() for t in ths]
-                out["runs"] += 1
-                for i in range(N):
-                    if results[i] != serial[i % len(ops)]:
-                        out["bad"].append({"what": "threads:" + name, "numba_threads": nt, "N": N, "got": repr(results[i])[:200]})
-                        break
+                first = once(N)
+                if first is not None:
+                    # a free-running run is a sample, not a schedule we own: report only what reproduces (the deciding,
+                    # exhaustive exploration of these same bodies is the controlled one)
+                    again = [once(N) for _ in range(10)]
+                    nbad = sum(1 for a in again if a is not None)
+                    if nbad >= 2:
+                        out["bad"].append({"what": "threads:" + name, "numba_threads": nt, "N": N, "got": first,
+                                           "reproduced": "%d of 10 repetitions" % nbad})
+                    else:
+                        out["unreproduced"] = out.get("unreproduced", 0) + 1
 print("FREE-RESULT " + json.dumps(out))
 """
 
@@ -715,6 +727,7 @@ def run_free(col, scratch, tier):
         raise core.HarnessError(f"free-running grid failed: rc={r.returncode} {r.stderr[-800:]}")
     out = json.loads(line[0][len("FREE-RESULT "):])
     col.count("free_running_runs", out["runs"])
+    col.count("free_running_unreproduced_deviations", out.get("unreproduced", 0))
     col.count("evaluations", out["runs"])
     for b in out["bad"][:3]:
         col.violation("free_running." + b["what"], {"engine": "free", **b}, f"free-running run differs from the serial result: {b}",
